@@ -371,6 +371,8 @@ impl GrammarBuilder {
                 }
 
                 if let Some(ConstVal::String(kind)) = new_production.meta.remove("kind") {
+                    // The kind is used to build identifiers in the generated code.
+                    self.check_identifier(&kind)?;
                     new_production.kind = Some(kind.into());
                 }
 
